@@ -1,6 +1,7 @@
 package props
 
 import (
+	"bytes"
 	"fmt"
 	"sort"
 
@@ -112,6 +113,15 @@ func (e *cpuEnv) runControl(l *explore.Local, c ctlCase) *explore.Fail {
 	}
 	regs := cpu.VRegs{A: c.A, F: 0x00, B: 0x1b, C: 0x2c, D: 0x3d, E: 0x4e, H: 0xc8, L: 0x5f, SP: sp, PC: pc}
 	e.m.CPU.VSet(regs)
+	// a program that stores to LCDC starts with the LCD on (so that its store really switches the LCD off); the LCD
+	// raises no request within the few cycles a program runs, and it is switched off again for the next case
+	if bytes.Contains(c.Code, []byte{0xe0, 0x40}) {
+		e.m.Map.Write(0xff40, 0x91)
+		defer func() {
+			e.m.Map.Write(0xff40, 0x00)
+			e.m.Map.Write(0xff0f, 0x00)
+		}()
+	}
 	e.m.Map.Write(0xffff, c.IE)
 	e.m.Map.Write(0xff0f, c.IF)
 	if c.IME {
@@ -342,7 +352,9 @@ func (e *cpuEnv) runControl(l *explore.Local, c ctlCase) *explore.Fail {
 
 // the last two are JR NZ,+0 and JR Z,+0: with the flags the programs start from one is taken and one is not (conditional
 // instructions are the ones that can finish before their last micro-op; a dispatch may follow either kind)
-var c04Alphabet = [][]uint8{{0x00}, {0xfb}, {0xf3}, {0xd9}, {0x3c}, {0xe0, 0x0f}, {0xe0, 0xff}, {0x3e, 0x00}, {0x3e, 0x1f}, {0x20, 0x00}, {0x28, 0x00}}
+// and LDH (40),A: a store to a register of another unit (with the values A takes here it switches the LCD off), which is
+// no interrupt-control instruction: the master enable, IE and IF are none of its business
+var c04Alphabet = [][]uint8{{0x00}, {0xfb}, {0xf3}, {0xd9}, {0x3c}, {0xe0, 0x0f}, {0xe0, 0xff}, {0x3e, 0x00}, {0x3e, 0x1f}, {0x20, 0x00}, {0x28, 0x00}, {0xe0, 0x40}}
 
 type c04Block struct {
 	Fam  string   `json:"fam"`
